@@ -54,6 +54,8 @@ def check(run):
     run.assumptions = ['raysect Spectrum.integrate(a, b) returns the integral of the spectrum over [a, b]']
     _r1(run, prog, eff, base, concrete)
     _r2(run, prog, eff, concrete)
+    from ..cachekey import check_caches
+    check_caches(run, [m for k, m in prog.modules.items() if k.startswith('cherab.tools.spectroscopy')], 'C16-K')
 
 
 def _lazy_getters(prog, ci):
